@@ -160,6 +160,7 @@ package certstore
 //@   at return 0
 //@     before[a_cut_block_is_never_a_clean_end_of_stream] dominatedBy(ReadUvarint, 1) && (arg(1) == io.EOF ==> arg(1) == res(ReadUvarint, 1, 1))
 //@     before[a_block_is_returned_whole] arg(1) == nil ==> res(ReadUvarint, 1, 1) == nil && res(CopyN, 1, 1) == nil && res(CopyN, 1, 0) == res(ReadUvarint, 1, 0)
+//@     before[a_block_of_any_representable_length_that_arrives_whole_is_accepted] arg(1) != nil ==> res(ReadUvarint, 1, 1) != nil || res(ReadUvarint, 1, 0) > 9223372036854775807 || res(CopyN, 1, 1) != nil || res(CopyN, 1, 0) != res(ReadUvarint, 1, 0)
 
 //@ func (hashWriter).Write
 //@   property C17
